@@ -74,6 +74,7 @@ type hxSrv struct {
 	failVerb   string // if set: only replies to this verb may deviate
 	multiline  bool   // every reply (other than EHLO's) is sent as a two-line reply
 	wideEOD    bool   // the reply to end-of-data may also be a 1yz or 3yz reply
+	eodAny2yz  bool   // with wideEOD: a positive reply to end-of-data is any 2yz code (symbolic digits), not only 250
 
 	// state
 	state        int
@@ -193,6 +194,14 @@ func (s *hxSrv) pick(c *hxCmd, ok string) (code [3]byte, drop bool) {
 		svAssume(hxAllowOK3[d] == 1)
 	default:
 		svAssume(hxAllowOK3ND[d] == 1)
+	}
+	if s.eodAny2yz && key == "EOD" && d == '2' {
+		// a positive completion reply to end-of-data need not be 250
+		d2, d3 := svByte("eod-d2"), svByte("eod-d3")
+		svAssume(hxDigit[d2] == 1)
+		svAssume(hxDigit[d3] == 1)
+		code[1], code[2] = d2, d3
+		return code, false
 	}
 	if d == ok[0] {
 		return code, false
